@@ -85,6 +85,7 @@ HitOK(kind, lam, v, t, slack) == v.has => t <= v.at + Lam(kind, lam) + slack
 (* h = [cc, expires, date, dttl]; seconds.                                 *)
 MaxAgeOf(cc) == CASE cc \in {"maxage", "nostore_maxage", "private_maxage"} -> 60
                   [] cc = "maxage0" -> 0
+                  [] cc = "nocache_maxage" -> 0    \* no-cache: not to be used without asking the origin again
                   [] cc = "maxage1" -> 1
                   [] cc = "maxage6" -> 6
                   [] cc = "maxage_aged" -> 6       \* max-age=60 and Age: 54 - the response spent 54 s in other caches
